@@ -54,6 +54,7 @@ pub struct World {
     pub life: u32,
     pub fault_read: bool,        // a read fault was injected (known-finding territory)
     pub lost_write: bool,        // an acknowledged write was dropped (C09's quantifier only)
+    pub key_reported: bool,      // the datastore-key oracle fired in this case (report once)
     pub wfault: bool,            // a write fault (refused / applied-but-failed) was injected
     pub fault_kind: String,      // which read was made to fail last: `dl` or `wait`
     pub height: u32,
@@ -85,7 +86,7 @@ impl World {
         { let mut n = node.lock().unwrap(); n.height = 1000; n.node_id = pubkey(LOCAL).to_string(); }
         World { node, hash_hex: hash.to_string(), hash: hash.to_byte_array().to_vec(),
             inv_fixed: make_invoice(&pre, Some(1_000_000), 0, 2), inv_open: make_invoice(&pre, None, 0, 2), open, inv_amount: 1_000_000, cfg,
-            calls: vec![], aids: vec![], acts: vec![], obs: vec![], life: 0, fault_read: false, lost_write: false, wfault: false, fault_kind: String::new(), height: 1000, model_wall: 1_000_000, stamp: BTreeMap::new(), mono: 0, wait_started: None, next_part: 1, restart_aid: None, init_snap: None, other: None, other_call: None, select_seed: 0, other_depth: 0, other_frozen_log: 0, idle_since: None, no_pay: vec![], hold: vec![] }
+            calls: vec![], aids: vec![], acts: vec![], obs: vec![], life: 0, fault_read: false, lost_write: false, key_reported: false, wfault: false, fault_kind: String::new(), height: 1000, model_wall: 1_000_000, stamp: BTreeMap::new(), mono: 0, wait_started: None, next_part: 1, restart_aid: None, init_snap: None, other: None, other_call: None, select_seed: 0, other_depth: 0, other_frozen_log: 0, idle_since: None, no_pay: vec![], hold: vec![] }
     }
     fn aid_canon(&mut self, aid: &str) -> usize {
         if let Some(p) = self.aids.iter().position(|a| a == aid) { return p + 1; }
@@ -202,6 +203,17 @@ pub fn need(w: &World, amt: u64) -> u128 { amt as u128 + w.cfg.base as u128 + (a
 
 /// Observation after an action: outstanding requests, new responses, new pay requests.
 async fn observe(w: &mut World, ctx: &mut Ctx, pay_seen: &mut Vec<u64>, act: &str) -> String {
+    // C14 / C01: every record the plugin reads or writes is addressed by the FULL payment hash of the payment it
+    // belongs to (the main hash, or the second, frozen one): a key that is not a function of the whole hash is shared
+    // by different payments (stored state pooled across hashes; a `Succeeded` record of one settles the other)
+    {
+        let other_hex = w.other.as_ref().map(|o| o.0.clone());
+        let bad: Vec<String> = { let n = w.node.lock().unwrap(); n.parked.iter().filter(|p| p.method == "datastore" || p.method == "listdatastore")
+            .filter_map(|p| { let key: Vec<String> = serde_json::from_value(p.params["key"].clone()).unwrap_or_default();
+                let ok = key.iter().any(|k| *k == w.hash_hex) || other_hex.as_ref().map(|h| key.iter().any(|k| k == h)).unwrap_or(false);
+                if ok { None } else { Some(format!("{} {:?}", p.method, key)) } }).collect() };
+        if let Some(b) = bad.first() { if !w.key_reported { w.key_reported = true; ctx.violation("C14,C01", "datastore-key-not-per-hash", &format!("{} is not addressed by the full payment hash {} REPLAY[{}]", b, w.hash_hex, replay(w))); } }
+    }
     let toks = parked_tokens(w);
     let mut out: Vec<String> = toks.iter().map(|t| t.1.clone()).collect();
     out.sort();
